@@ -135,6 +135,11 @@ class Probe:
                 for c in [c for c in e2 if c.tag == tag]:
                     e2.remove(c)
                 self.must_reject("required-omitted", "etree", lambda: self.from_etree(e2), attr)
+                if kind == "elem":
+                    # present but empty: an element without a value is as absent as an omitted one
+                    self.must_reject("required-empty", "kwargs", lambda: cls(*args, **dict(kwargs, **{attr: ""})), attr + "=''")
+                    for empty in ("", None):
+                        self.must_reject("required-empty", "etree", lambda em=empty: self.from_etree(self.with_text(elem, tag, em)), attr + f"={empty!r}")
             if kind != "elem":
                 # wrong sub-aggregate type
                 other = next((x.__type__ for x in d.values() if ref_decl.kind_of(x) in ("sub", "listagg") and x.__type__ is not t.__type__), None)
@@ -171,6 +176,15 @@ class Probe:
                 else:
                     self.must_reject("string-over-limit", "kwargs", lambda: cls(*args, **dict(kwargs, **{attr: over})), attr)
                     self.must_reject("string-over-limit", "etree", lambda: self.from_etree(self.with_text(elem, tag, over)), attr)
+                    # over the limit whether or not entities are decoded: a bare '&', an entity, markup characters, non-ASCII
+                    for o2 in ("&" + "y" * t.length, "y" * t.length + "&", "&amp;" + "y" * t.length, "A&T " + "y" * t.length, "é" * (t.length + 1),
+                               "y" * (t.length - 1) + "&lt;&gt;", " y" * t.length + "z"):
+                        self.ctx.count("overlong_hostile_strings")
+                        self.must_reject("string-over-limit", "kwargs", lambda o=o2: cls(*args, **dict(kwargs, **{attr: o})), attr)
+                        self.must_reject("string-over-limit", "etree", lambda o=o2: self.from_etree(self.with_text(elem, tag, o)), attr)
+                    if t.length >= 2:
+                        # exactly at the limit once the entity is decoded (the parser hands element text over still escaped)
+                        self.must_accept("string-at-limit", "etree", lambda: self.from_etree(self.with_text(elem, tag, "&amp;" + "x" * (t.length - 1))), attr + "=entity")
             elif isinstance(t, T.Integer) and t.length is not None:
                 hi = 10**t.length - 1
                 self.must_accept("integer-at-limit", "kwargs", lambda: cls(*args, **dict(kwargs, **{attr: hi})), attr)
